@@ -31,6 +31,13 @@ func init() {
 	rdExt := []string{"io.ReaderAt.ReadAt:out0"}
 	registerGoLite(glGroup{id: "goliterdc05", out: "GoLiteRdC05.v", pkgDir: "bucketteer", funcs: rdFuncs, externs: rdExt})
 	registerGoLite(glGroup{id: "goliterdlc05", out: "GoLiteRdLC05.v", pkgDir: "deprecated/bucketteer", funcs: rdFuncs, externs: rdExt})
+	// (*Reader).Has of the sig-exists index: prefix table, bucket size, section reader, hash, and the search whose getter
+	// is a function literal reading the index-th hash through the section reader (translated as "Reader.Has$getter");
+	// two readers occur, so the ReadAt oracle is told the receiver
+	registerGoLite(glGroup{id: "golitehasc05", out: "GoLiteHasC05.v", pkgDir: "bucketteer",
+		funcs: []glFunc{{name: "searchEytzinger"}, {name: "prefixToUint16"}, {name: "readFullAt"}, {name: "readUint64Le"},
+			{name: "Hash"}, {recv: "Reader", name: "Has"}},
+		externs: []string{"io.ReaderAt.ReadAt:out0", "io.NewSectionReader", "xxhash.Sum64"}, recvArg: true})
 	registerGoLite(glGroup{id: "goliterdmain", out: "GoLiteRdMain.v", pkgDir: ".", funcs: []glFunc{{name: "readFullAt"}}, externs: rdExt})
 	registerGoLite(glGroup{id: "golitec03", out: "GoLiteC03.v", pkgDir: ".",
 		funcs:   []glFunc{{name: "parseNodeFromSection"}},
